@@ -247,4 +247,22 @@ PROPS = {
         "level_text": "Lean theorems C18_total_* (no parser reaches a panic on any string), C18_ports_exact / C18_rate_exact / C18_ipflags_exact / C18_tcpflags_exact / C18_ports_file / C18_exclude_file (whatever is accepted is exactly what an independent reader says the string denotes; bounds <= 65535) and the round trips C18_ports_roundtrip / C18_range_roundtrip / C18_rate_roundtrip / C18_payload_roundtrip / C18_payload_plain / C18_*flags_roundtrip (every canonical rendering parses back), for all strings and all values, over flag tables regenerated from the source on every run. Tied to the code by the real parsers on grammar-derived and mutated strings, incl. all 2^9 TCP and 2^3 IP flag subsets through the real filler.",
         "level_note": "Trusted: Lean kernel; the strconv/strings/bufio models are validated differentially on every run, not proved; time.ParseDuration is a parameter.",
     },
+    "C17": {
+        "modules": ["SxVerif.Props.C17"],
+        "components": ["iface"],
+        "trusted_base": [
+            "modelled, not verified: net.Interfaces / Interface.Addrs / net.InterfaceByName / InterfaceByIndex and netlink.RouteList(nil, FAMILY_V4) (main table) as the snapshot lists of Model/Iface.lean; net.IP.To4, IP.Mask, CIDRMask and IPNet.Contains on IPv4 entries as byte lists (Model/Iface.lean), validated by running the real code in private network namespaces",
+            "the harness reads the snapshot with the same two sources the code uses (Go runtime + vishvananda/netlink); that they report the kernel state faithfully is assumed (snapshot taken before and after the real code ran, case kept only if unchanged)",
+            "the arp command's `SrcMAC == nil -> errSrcMAC` rule sits in a cobra closure: tied by running the real sx binary (go build of the repo) in the namespace and classifying its stderr",
+            "frames: that a filler puts Range.SrcIP / SrcMAC into the frame is C05 (ReqOK.src4 is clause (v) here)",
+        ],
+        "assumptions": [
+            "hostWF: an IPv4 address entry of the snapshot carries 4 bytes (what Interface.Addrs returns)",
+            "optsWF: the parsed target is a 4-byte address (C02_parse_exact)",
+            "routesResolve (C17_choice, C17_arp, clauses i, ii, v; not iii, iv): every default route of the main table names an interface of the snapshot. `unreachable default` / multipath routes do not; for them the harness still evaluates the Spec on the real outcome (the scan must fail if the lowest-metric default route has no interface), the theorem does not cover them",
+            "the snapshot does not change between the calls of one option-parsing run",
+        ],
+        "level_text": "Lean theorems over Model/Iface.lean, for every host snapshot (interface, address and route lists of any length) and every flag combination: C17_choice / C17_arp (the option code fails exactly when the Spec sees no usable interface or IPv4 source, else returns the Spec's interface, source address, MAC and vpn mode; arp additionally refuses without MAC), C17_i_attached, C17_ii_iface, C17_ii_default (explicit first-match / lowest-metric statements), C17_iii_overrides and C17_iv_vpn (no hypothesis on the snapshot), C17_v_source / C17_v_fails (4-byte source that is the user's or an IPv4 address of the chosen interface of this host, error otherwise), C17_attached_is_prefix_match (the byte-wise Contains test = the first prefix-length bits agree) and C17_local / C17_default / C17_gateway for the pkg/ip functions. Tied to the code by building generated hosts (veth, bridge, ifb, tap, MAC-less tun; several addresses incl. IPv6-only and v4-mapped, overlapping subnets, 0-4 default routes with equal / huge metrics and preferred sources, unreachable, other tables) in private network namespaces (unshare -n) and running the real parseRawOptions + ipScanCmdOpts.parseOptions, getScanRange, the pkg/ip functions and the real sx arp binary there; the Spec is evaluated on every observed outcome.",
+        "level_note": "Trusted: Lean kernel; the snapshot abstraction of the Go runtime / netlink (differentially validated in namespaces, not proved); fails closed when `unshare -n` is unavailable (component exits 3 -> correspondence violation).",
+    },
 }
